@@ -60,9 +60,12 @@ type C07Proc struct {
 }
 
 type C07Scenario struct {
-	Source string    `json:"source"` // generated | fixtures
-	Files  []SrcFile `json:"files"`
-	Procs  []C07Proc `json:"procs"`
+	// CwdIgnore: the working directory of every process (never the analysed directory itself) holds
+	// a .gitignore whose anchored patterns name the top-level package directories
+	CwdIgnore bool      `json:"cwd_ignore,omitempty"`
+	Source    string    `json:"source"` // generated | fixtures
+	Files     []SrcFile `json:"files"`
+	Procs     []C07Proc `json:"procs"`
 	// Variants > 0: Files[Variants+i] is the same-length variant of Files[i] (its class name ends in q)
 	Variants int `json:"variants,omitempty"`
 	// Models: synthetic call models (as in C03/C04) for the "generate a graph twice" clause; the
@@ -112,6 +115,7 @@ func c07Options(t *tape.Tape, thorough bool) gen.Options {
 	o.SamePkgConflict = t.Bool(1, 2)
 	o.ServiceMethod = t.Bool(1, 2)
 	o.Enums = t.Bool(1, 3)
+	o.Legacy = t.Bool(1, 6)
 	o.Nested = t.Bool(1, 2) // differential oracle: shapes beyond the conventional subset cost nothing
 	return o
 }
@@ -133,7 +137,7 @@ func genHistory(t *tape.Tape, nFiles int, thorough bool, passes []string) []C07P
 		nops := t.Int(2, maxOps)
 		for o := 0; o < nops; o++ {
 			op := C07Op{Pass: passes[t.Pick(len(passes))]}
-			if op.Pass == "call" || op.Pass == "rcall" {
+			if op.Pass == "call" || op.Pass == "rcall" || op.Pass == "apigraph" {
 				op.Root = t.Pick(64)
 				op.Lookup = op.Pass == "call" && t.Bool(1, 2)
 				op.Model = t.Pick(3)
@@ -153,7 +157,7 @@ func genHistory(t *tape.Tape, nFiles int, thorough bool, passes []string) []C07P
 					op.Files = []int{perm[0]}
 				}
 				if t.Bool(1, 4) {
-					op.Noise = 1
+					op.Noise = 1 + t.Pick(2)
 				}
 				if t.Bool(1, 3) {
 					op.ArgForm = t.Int(1, 3)
@@ -219,7 +223,7 @@ func (C07) Generate(t *tape.Tape, tier string) interface{} {
 			sc.Files = append(sc.Files, SrcFile{ID: f.ID, Path: f.Path, Text: f.Text})
 		}
 	}
-	sc.Procs = genHistory(t, len(sc.Files), thorough, []string{"ident", "full", "bs", "api", "ident", "full", "bs", "api", "call", "rcall", "call", "rcall"})
+	sc.Procs = genHistory(t, len(sc.Files), thorough, []string{"ident", "full", "bs", "api", "ident", "full", "bs", "api", "call", "rcall", "call", "rcall", "apigraph"})
 	for i := 0; i < 2; i++ {
 		sc.Models = append(sc.Models, genModel(t, thorough))
 	}
@@ -247,6 +251,7 @@ func (C07) Generate(t *tape.Tape, tier string) interface{} {
 			sc.Files = append(sc.Files, v)
 		}
 	}
+	sc.CwdIgnore = t.Bool(1, 3)
 	return sc
 }
 
@@ -331,7 +336,13 @@ func (r *c07run) argForm(dir string, form int) string {
 }
 
 // addNoise drops a .gitignore and ignored regular files around the sources of a scanned directory.
-func (r *c07run) addNoise(dir string, n int) {
+func (r *c07run) addNoise(dir string, n int, level int) {
+	if level > 1 {
+		// between the package directories: a directory chain deeper than PATH_MAX
+		if err := makeDeepDir(dir, "aa_cache"); err == nil {
+			r.out.Faults["noise-directory-deeper-than-PATH_MAX"]++
+		}
+	}
 	os.WriteFile(filepath.Join(dir, ".gitignore"), []byte("*.iml\n*.log\nbuild/\n"), 0644)
 	os.WriteFile(filepath.Join(dir, "00_aaa.iml"), []byte("<module/>\n"), 0644)
 	os.WriteFile(filepath.Join(dir, "zz_last.log"), []byte("log\n"), 0644)
@@ -537,6 +548,10 @@ func (C07) Run(ctx *sim.RunCtx, data json.RawMessage) (*sim.Outcome, error) {
 		return nil, sim.Harness("scenario: %v", err)
 	}
 	out := &sim.Outcome{Faults: map[string]int{}, Probes: map[string]int{}}
+	if sc.CwdIgnore {
+		os.WriteFile(filepath.Join(ctx.Dir, ".gitignore"), []byte(cwdIgnoreText), 0644)
+		out.Faults["working-directory-holds-gitignore"]++
+	}
 	out.ContentHash = hashJSON(sc)
 	r := &c07run{ctx: ctx, sc: &sc, out: out, paths: map[string]string{}}
 	n := len(sc.Files)
@@ -719,6 +734,23 @@ func (C07) Run(ctx *sim.RunCtx, data json.RawMessage) (*sim.Outcome, error) {
 		if ms := modelMethods[mi]; len(ms) > 0 {
 			root = ms[op.Root%len(ms)]
 		}
+		if op.Pass == "apigraph" {
+			// the `coca api` chain graph over two endpoints of that model: the other graph entry point
+			var apis []RestAPI
+			var names []string
+			for k, r := range []string{root, "none.Such.method"} {
+				if ms := modelMethods[mi]; k == 1 && len(ms) > 0 {
+					r = ms[(op.Root*7+3)%len(ms)]
+				}
+				parts := strings.Split(r, ".")
+				if len(parts) < 3 {
+					continue
+				}
+				apis = append(apis, RestAPI{Uri: fmt.Sprintf("/e%d", k), HttpMethod: "GET", MethodName: parts[len(parts)-1], ClassName: parts[len(parts)-2], PackageName: strings.Join(parts[:len(parts)-2], ".")})
+				names = append(names, r)
+			}
+			return sim.Op{Op: "callByFiles", Args: map[string]interface{}{"apis": apis, "model": modelFiles[mi], "di": map[string]string{}}}, fmt.Sprintf("apigraph|%d|%s", mi, strings.Join(names, ","))
+		}
 		if op.Pass == "call" {
 			return sim.Op{Op: "call", Args: map[string]interface{}{"root": root, "model": modelFiles[mi], "lookup": op.Lookup}}, fmt.Sprintf("call|%d|%s|%v", mi, root, op.Lookup)
 		}
@@ -839,7 +871,7 @@ func (C07) Run(ctx *sim.RunCtx, data json.RawMessage) (*sim.Outcome, error) {
 				}
 				d.dir = dir
 				if op.Noise > 0 {
-					r.addNoise(dir, len(files))
+					r.addNoise(dir, len(files), op.Noise)
 				}
 				arg := r.argForm(dir, op.ArgForm)
 				if op.Pass == "bs" {
@@ -847,7 +879,7 @@ func (C07) Run(ctx *sim.RunCtx, data json.RawMessage) (*sim.Outcome, error) {
 				} else {
 					proc.Ops = append(proc.Ops, sim.Op{Op: "api", Args: map[string]interface{}{"dir": arg, "deps": depsFile, "ident": identFile}})
 				}
-			case "call", "rcall":
+			case "call", "rcall", "apigraph":
 				sop, key := graphOf(op)
 				if _, ok := graphRef[key]; !ok {
 					rec, err := pristine(sop)
@@ -898,7 +930,7 @@ func (C07) Run(ctx *sim.RunCtx, data json.RawMessage) (*sim.Outcome, error) {
 				multiFile = true
 			}
 			// fault accounting
-			if op.Pass != "call" && op.Pass != "rcall" {
+			if op.Pass != "call" && op.Pass != "rcall" && op.Pass != "apigraph" {
 				inOrder := true
 				dups := map[int]int{}
 				for k := range files {
@@ -991,7 +1023,7 @@ func (C07) Run(ctx *sim.RunCtx, data json.RawMessage) (*sim.Outcome, error) {
 							map[string]string{"pass": "bs", "clause": "smells-differ"})
 					}
 				}
-			case "call", "rcall":
+			case "call", "rcall", "apigraph":
 				_, key := graphOf(op)
 				want := graphRef[key]
 				if want == "\x00pristine-failed" {
